@@ -219,7 +219,7 @@ func enumC01(maxN int, visit func(WF)) int {
 			kinds = append(kinds, ks{k, 0})
 		}
 	}
-	posts := []VisitScript{{Action: "go"}, {Action: ""}, {Post: Outcome{Err: 1}}}
+	posts := []VisitScript{{Action: "go"}, {Action: ""}, {Post: Outcome{Err: 1}}, {Action: "go", Post: Outcome{Err: 3, Pay: 1}}}
 	fbs := []Outcome{{Pay: 0}, {Err: 3}, {Err: 5}}
 	for _, k := range kinds {
 		for n := 1; n <= maxN; n++ {
@@ -236,11 +236,11 @@ func enumC01(maxN int, visit func(WF)) int {
 								for a := 0; a < ln; a++ {
 									o := Outcome{Pay: (a + mask + pi) % numPayKinds}
 									if mask&(1<<a) != 0 {
-										o.Err = 1 + a%4
+										o.Err = errFlavors[(a+mask)%len(errFlavors)]
 									}
 									s.Exec = append(s.Exec, o)
 								}
-								w := WF{Nodes: []NodeSpec{{Leaf: &LeafSpec{Kind: k.kind, Style: k.style, N: n, Visits: []VisitScript{s}}}}, Fuel: 5}
+								w := WF{Nodes: []NodeSpec{{Leaf: &LeafSpec{Kind: k.kind, Style: k.style, N: n, ErrRes: (mask+ln)%2 == 1, Visits: []VisitScript{s}}}}, Fuel: 5}
 								visit(w)
 								count++
 							}
